@@ -110,6 +110,18 @@ def checkkind_rules(fb, ctx):
                 sets = [a for a in find_all(loop, lambda z: z.get("k") == "assign" and hirq.is_lid(strip(z["lhs"]), flag) and hirq.literal(z["rhs"]) is True)]
                 brk = [i2 for i2 in find_all(loop, lambda z: z.get("k") == "if") if hirq.is_lid(strip(i2["cond"]), res_ids) and find_all(i2["then"], lambda z: z.get("k") == "break") and any(find_all(i2["then"], lambda z: z is s) for s in sets)]
                 guard_ok = bool(sets) and bool(brk)
+        if not guard_ok and len(pushes) == 1:
+            # the same bookkeeping without a flag: `'checks: for check { for query { if res { continue 'checks; } } errors.push(..) }` -
+            # the push is an unconditional statement of the check loop's body, after the query loop, and a matching query leaves
+            # through a labelled `continue`
+            res_ids = hirq.let_ids(loop, lambda z: bool(find_all(z, lambda y: y is m)))
+            inner = [l2 for l2 in find_all(loop, lambda z: z.get("k") == "loop" and z is not loop) if find_all(l2, lambda y: y is m)]
+            cont = [i2 for l2 in inner for i2 in find_all(l2, lambda z: z.get("k") == "if") if hirq.is_lid(strip(i2["cond"]), res_ids) and find_all(i2["then"], lambda z: z.get("k") == "continue" and z.get("label"))]
+            conditional = [x for x in find_all(loop, lambda z: z.get("k") in ("if",) or (z.get("k") == "match" and z.get("src") == "Normal")) if find_all(x, lambda z: z is pushes[0]) and not find_all(x, lambda z: z.get("k") == "loop" and find_all(z, lambda y: y is pushes[0]))]
+            innermost = [l2 for l2 in inner if not any(l3 is not l2 and find_all(l2, lambda z: z is l3) for l3 in inner)]
+            in_inner = any(find_all(l2, lambda z: z is pushes[0]) for l2 in innermost)
+            cont = [i2 for i2 in cont if any(find_all(l2, lambda z: z is i2) for l2 in innermost)]
+            guard_ok = bool(cont) and not conditional and not in_inner and bool(inner)
         ctx.check(len(pushes) == 1 and guard_ok, "FAILEDCHECK", f"check loop #{n}: a check fails iff none of its queries succeeded", f"FAILEDCHECK|loop{n}", "expected `if res { successful = true; break }` per query and `if !successful { errors.push(FailedCheck..) }` per check", where)
     want_ids = ["usize::MAX", "0", None]
     got3 = expected_ids[:3]
